@@ -186,6 +186,8 @@ pub fn run(ctx: &Ctx) -> Report {
         p3(ctx.pick(4, 5), ctx.pick(2, 3)),
         p4(ctx.pick(20, 120), true),
         p5_classic(),
+        p1b(ops.clone(), ctx.pick(2, 3)),
+        p_paths(40),
     ];
     let seed = ctx.seed;
     let mut notes = vec![];
